@@ -448,6 +448,22 @@ func runWorker(bin, prop, tier, harness string, seed uint64, from, to int, a *ag
 				return ""
 			}
 		}
+		// a run that was still progressing when its wall limit expired is inconclusive (like
+		// a step-capped run); the rest of the chunk is re-run. Many of them is trouble.
+		if k := strings.LastIndex(stderr.String(), "WALLLIMIT run="); k >= 0 {
+			run := from + got
+			fmt.Sscanf(stderr.String()[k:], "WALLLIMIT run=%d", &run)
+			res := simcore.Result{Seed: runSeedOf(seed, run), Run: run, Outcome: "wall"}
+			b, _ := json.Marshal(res)
+			a.add(res, string(b))
+			if n := a.countOutcome("wall"); n > 20 {
+				return fmt.Sprintf("%d runs exceeded their wall limit while still progressing (last: run %d)", n, run)
+			}
+			if run+1 < to {
+				return runWorker(bin, prop, tier, harness, seed, run+1, to, a, sp)
+			}
+			return ""
+		}
 		tail := stderr.String()
 		for _, marker := range []string{"fatal error:", "panic:", "WATCHDOG", "runtime: out of memory"} {
 			if i := strings.Index(tail, marker); i >= 0 {
@@ -526,6 +542,12 @@ func genCase(bin, prop, tier, harness string, seed uint64, run int) (simcore.Cas
 		}
 	}
 	return simcore.Case{}, false
+}
+
+func (a *agg) countOutcome(o string) int {
+	a.mu.Lock()
+	defer a.mu.Unlock()
+	return a.outcomes[o]
 }
 
 func (a *agg) add(r simcore.Result, raw string) {
